@@ -89,6 +89,29 @@ namespace CDNS {
         explicit BlockTable() {}
 
         /**
+         * @brief Copy constructor. The keys of the index map refer to the stored items, so
+         * the map has to be rebuilt over the items of the copy.
+         */
+        BlockTable(const BlockTable& other) : items_(other.items_)
+        {
+            rebuild_indexes();
+        }
+
+        /**
+         * @brief Copy assignment operator (rebuilds the index map over the copied items)
+         */
+        BlockTable& operator=(const BlockTable& rhs)
+        {
+            if ( this != &rhs )
+            {
+                indexes_.clear();
+                items_ = rhs.items_;
+                rebuild_indexes();
+            }
+            return *this;
+        }
+
+        /**
          * @brief Find if a key value is in the list
          * 
          * @param key the key value to search for.
@@ -214,6 +237,18 @@ namespace CDNS {
          * 
          * @returns index reference to the value.
          */
+        /**
+         * @brief Rebuild the index map so that its keys refer to this table's own items
+         * (for equal items the last one wins, as in record_last_key())
+         */
+        void rebuild_indexes()
+        {
+            indexes_.clear();
+            CDNS::index_t pos = 0;
+            for ( const auto& item : items_ )
+                indexes_[KeyRef<K>(item.key())] = pos++;
+        }
+
         CDNS::index_t record_last_key()
         {
             CDNS::index_t res = items_.size();
